@@ -1,6 +1,7 @@
 #!/bin/bash
 # usage: tools/verify_seed.sh <N> : confirm a sub-agent's seeded change in /tmp/wtN (+ /tmp/outN):
 # suite passes with the change, demo fails with it, demo passes without it.
+# (no `git stash`: the stash is shared between worktrees, parallel verifications would mix)
 N=$1; WT=/tmp/wt$N; OUT=/tmp/out$N
 cd $WT || exit 9
 echo "--- files changed:"; git status --short | head
@@ -8,7 +9,7 @@ git diff -- pyvaporation > /tmp/seed$N.diff
 [ -s /tmp/seed$N.diff ] || { echo "NO CHANGE"; exit 9; }
 echo "--- suite with change:"; timeout 1200 /venv/bin/python -m pytest -q -p no:cacheprovider --timeout=900 2>&1 | tail -2
 echo "--- demo with change:"; MPLBACKEND=Agg timeout 300 /venv/bin/python $OUT/demo.py > /tmp/seed$N.with.log 2>&1; echo "exit=$?"; tail -3 /tmp/seed$N.with.log | cut -c1-300
-git stash -q
+git checkout -q -- pyvaporation
 echo "--- demo without change:"; MPLBACKEND=Agg timeout 300 /venv/bin/python $OUT/demo.py > /tmp/seed$N.without.log 2>&1; echo "exit=$?"; tail -2 /tmp/seed$N.without.log | cut -c1-300
-git stash pop -q
+git apply /tmp/seed$N.diff
 git status --short | head -5
